@@ -83,7 +83,12 @@ class StatThresholdAnomaliser(CollectiveAnomalyDetector):
         """
         # This is the required output format for the rest of the code to work.
         segments = self.change_detector_.transform(X)["labels"]
-        df = pd.concat([X, segments], axis=1)
+        df = pd.DataFrame(
+            {
+                "x": pd.DataFrame(X).iloc[:, 0].to_numpy(),
+                "labels": segments.to_numpy(),
+            }
+        )
         anomalies = []
         for _, segment in df.reset_index(drop=True).groupby("labels"):
             segment_stat = self.stat(segment.iloc[:, 0].values)
